@@ -137,6 +137,68 @@ theorem C17_label_term_exactly_once {ord : Order} (ho : OrderOK ord) (dfs : Call
   have := ((forceAns_labelOK dfs ho n t).1 N s zs w hi hp h fun y hy => hall y (hp'.mem_iff.1 hy)).perm hp'
   exact this
 
+theorem flatMapM_blocks {α β : Type} {f : α → Option (List β)} : ∀ {xs : List α} {zs : List β},
+    flatMapM f xs = some zs →
+    ∃ blocks : List (List β), zs = blocks.flatten ∧ blocks.length = xs.length ∧
+      ∀ (i : Nat) (h1 : i < xs.length) (h2 : i < blocks.length), f xs[i] = some blocks[i]
+  | [], zs, h => by
+    simp only [flatMapM, Option.some.injEq] at h
+    subst h
+    exact ⟨[], rfl, rfl, fun i h1 _ => by simp at h1⟩
+  | x :: xs, zs, h => by
+    obtain ⟨ys, ws, h1, h2, rfl⟩ := flatMapM_cons_some' h
+    obtain ⟨bs, e, hl, hb⟩ := flatMapM_blocks h2
+    refine ⟨ys :: bs, by simp [e], by simp [hl], fun i hi1 hi2 => ?_⟩
+    cases i with
+    | zero => simpa using h1
+    | succ i => simpa using hb i (by simpa using hi1) (by simpa using hi2)
+
+/-- PROGRAM + LABELLING, end to end (textbook order): run a constraint program (atoms under conjunction, `conde`,
+    fresh) and then label a term.  If no delivered state is poisoned (the model's FUEL), the delivered states come
+    in consecutive blocks, one per state `x` the program delivers, such that `x` describes exactly the solutions
+    of one PATH of the program and its block partitions them: every solution of that path is described by
+    exactly one state of the block.  (Each solution is returned once per disjunction path it satisfies.) -/
+theorem C17_program_labelled {ord : Order} (ho : OrderOK ord) (dfs : Call → State → State × G) (N n nv : Nat)
+    (p : FProg) (hok : p.OK) (t : Term) (zs : List State)
+    (h : evalRef dfs (N + 1) (.conj (p.goal ord) (forceAns ord n t)) (State.empty nv) = some zs)
+    (hall : ∀ z ∈ zs, z.panic = none) :
+    ∃ xs : List State, ∃ blocks : List (List State),
+      evalRef dfs N (p.goal ord) (State.empty nv) = some xs ∧ zs = blocks.flatten ∧ blocks.length = xs.length ∧
+      ∀ (i : Nat) (h1 : i < xs.length) (h2 : i < blocks.length),
+        (∃ path ∈ p.paths, ∀ γ, Sem NoI γ xs[i] ↔ ∀ a ∈ path, a.Sat γ) ∧
+        (∀ y ∈ blocks[i], ∀ γ, Sem NoI γ y → Sem NoI γ xs[i]) ∧
+        (∀ γ, Sem NoI γ xs[i] → ∃ y ∈ blocks[i], Sem NoI γ y) ∧
+        blocks[i].Pairwise fun a b => ∀ γ, ¬ (Sem NoI γ a ∧ Sem NoI γ b) := by
+  simp only [evalRef] at h
+  cases hx : evalRef dfs N (p.goal ord) (State.empty nv) with
+  | none => rw [hx] at h; simp at h
+  | some xs =>
+    rw [hx] at h
+    simp only at h
+    have hlab := forceAns_labelOK dfs ho n t
+    obtain ⟨blocks, e, hl, hb⟩ := flatMapM_blocks h
+    -- no intermediate state is poisoned: labelling lets a poisoned state through
+    have hxs : ∀ x ∈ xs, x.panic = none := fun x hxm => by
+      cases hpx : x.panic with
+      | none => rfl
+      | some site =>
+        obtain ⟨ys, ey⟩ := flatMapM_some_of_mem h x hxm
+        have : x ∈ ys := hlab.2.1 N x ys (by rw [hpx]; simp) ey
+        have := hall x ((flatMapM_mem h x).2 ⟨x, hxm, ys, ey, this⟩)
+        rw [hpx] at this; cases this
+    refine ⟨xs, blocks, rfl, e, hl, fun i h1 h2 => ?_⟩
+    have hxm : xs[i] ∈ xs := List.getElem_mem h1
+    obtain ⟨path, hpth, hpost⟩ :=
+      evalRef_paths_sound ord dfs p N (State.empty nv) xs (inv_empty nv) hx xs[i] hxm (hxs _ hxm)
+    have hokp := FProg.paths_ok p hok path hpth
+    have r := postAllF_sem ho path (State.empty nv) (wfs_empty nv) (inv_empty nv) hokp
+    rw [hpost] at r
+    have hbi := hb i h1 h2
+    have part := hlab.1 N xs[i] blocks[i] r.1 r.2.1 (hxs _ hxm) hbi fun y hy =>
+      hall y ((flatMapM_mem h y).2 ⟨xs[i], hxm, blocks[i], hbi, hy⟩)
+    exact ⟨⟨path, hpth, fd_exact_ok ho nv path hokp xs[i] hpost⟩,
+      fun y hy γ hs => (part.1 y hy).2.2 γ hs, part.2.1, part.2.2⟩
+
 section Examples
 attribute [local instance] Mode.strict
 /-- non-vacuity: after `x in {1, 2, 4}, x != 2` the state meets the hypotheses (x unbound with a domain), and
